@@ -5,6 +5,7 @@ import CfbVerif.Phys.DifatBack
 import CfbVerif.Phys.EntryBack
 import CfbVerif.Phys.OpenBack
 import CfbVerif.Phys.LookupBack
+import CfbVerif.Phys.WalkBack
 /-!
 # C02 — write-through persistence: the byte image always reopens to the same state
 
@@ -214,6 +215,15 @@ theorem C02_lookup_after_reopen (p : P) (s : Dir.State) (strict : Bool)
     (names : List Names.Name) :
     Raw.lookup (rawOf p (dirtable s)) names Gen.ROOT_STREAM_ID = .ok ((resolve s.top names).map slotOfRes) :=
   lookup_after_reopen p s strict wf rb nd hcap hcapN names
+
+/-- … and `walk` on the reopened file lists the paths the live object's `walk` lists, in the same
+(pre-)order: the `Entries` stack machine over the index-linked table is shown to emit, for every
+sibling tree, the tree's pre-order (`Phys.walk_tree`, one iteration per node) -/
+theorem C02_walk_after_reopen (p : P) (s : Dir.State) (strict : Bool)
+    (wf : s.top.WF) (rb : strict = true → RBAll s.top)
+    (nd : (0 :: s.top.slots).Nodup) (hcap : ∀ x ∈ 0 :: s.top.slots, x < dirCap p) (hcapN : dirCap p ≤ NOSTREAM) :
+    ∃ l, Raw.walk (rawOf p (dirtable s)) = .ok l ∧ l.map (·.1) = (walkAll s).map (·.path) :=
+  walk_after_reopen p s strict wf rb nd hcap hcapN
 
 /-- the premises of `C02_reopens` are met — **a fresh file reopens**: for the state `create` leaves (root
 entry only, no MiniFAT) every hypothesis holds, so both open modes accept the rendered image of a
